@@ -4,13 +4,13 @@ package main
 // Passive form: every assigned/merged value is a fresh SMT constant with one defining equation.
 
 import (
-	"sort"
 	"fmt"
 	"go/ast"
 	"go/constant"
 	"go/token"
 	"go/types"
 	"math/big"
+	"sort"
 	"strings"
 	"sync"
 
@@ -158,16 +158,16 @@ type Ctx struct {
 	noSafeNil      bool
 	assertSeen     map[*AssertClause]bool
 	assertHook     func(v Val, target types.Type, st *State) (Val, string, bool) // family engines: type assertions on modelled library values
-	bidMemo        map[string]string // ids handed out for byte-sequence values, by syntactic identity of the value
-	callResults    []callResult // ghost record of contract-based calls and what they returned
-	listAppends    []listAppend // ghost record of append(list, elem…) calls
+	bidMemo        map[string]string                                             // ids handed out for byte-sequence values, by syntactic identity of the value
+	callResults    []callResult                                                  // ghost record of contract-based calls and what they returned
+	listAppends    []listAppend                                                  // ghost record of append(list, elem…) calls
 	mapEvents      []mapEvent
 	mapMakes       []string // ids of maps created by make in this unit
 	onCase         func(c *Ctx, cc *ast.CaseClause, st *State)
 	curResults     []types.Object
 	resTypes       []types.Type
 	panicOK        string
-	entryBinds map[string]Val
+	entryBinds     map[string]Val
 	caseExitAll    bool
 	ifaceNil       bool
 	nilPanics      bool
@@ -179,6 +179,7 @@ type Ctx struct {
 	curPos         token.Pos
 	content        bool
 	aliasStores    []StoreRec
+	provJoin       map[string][]string // lazily resolved provenance joins (loop heads, merges)
 	nilElemStores  []ElemStore
 	qn             int
 	mu             sync.Mutex
@@ -330,6 +331,8 @@ func (c *Ctx) mergeVal(g string, a, b Val) Val {
 		if y.Prov != x.Prov {
 			if x.Prov == "input" || y.Prov == "input" {
 				r.Prov = "input"
+			} else if strings.HasPrefix(x.Prov, "join:") || strings.HasPrefix(y.Prov, "join:") {
+				r.Prov = c.openProv(x.Prov, y.Prov)
 			} else {
 				r.Prov = "mixed"
 			}
